@@ -107,6 +107,7 @@ func countFiles(pattern string) []string {
 // the next Check of the same test replays it first and fails "after 0 tests" with the same draws.
 func H_C06_rerun() {
 	vfsReset()
+	tickingTimestamps(true) // file names carry a timestamp: a second may pass between any two of them
 	flags.checks = 1
 	flags.shrinkTime = 0
 	flags.nofailfile = choose("nofailfile", 2) == 1
